@@ -249,7 +249,11 @@ def run_shard(shard):
             lp = out["lp"].astype(np.float64)
             fin_raw = np.isfinite(lp)
             lpmax = 1e8 if x64 else 1e5
-            fin = fin_raw & (np.abs(lp) <= lpmax)  # beyond: float overflow regime (counted, not judged)
+            # beyond lpmax: float overflow regime (counted, not judged) - except a value that is *exactly* the most negative finite
+            # float: no computation lands there, it is an infinity that was clipped, and it claims to be finite
+            sat = lp == -float(np.finfo(fdt).max)
+            rec.count("logprob_exactly_most_negative_float", int(sat.sum()))
+            fin = fin_raw & ((np.abs(lp) <= lpmax) | sat)
             rec.count("logprob_finite_but_overflow_regime_gated", (fin_raw & ~fin).sum())
             rec.count("logprob_finite", fin.sum())
             rec.count("logprob_minus_inf", np.isneginf(lp).sum())
@@ -359,7 +363,9 @@ def _support_pass(shard, rec, make_bundle, rng, fdt, x64):
             N = len(xs)
             rec.evals += N
             lp = out["lp"].astype(np.float64)
-            fin = np.isfinite(lp) & (np.abs(lp) <= (1e8 if x64 else 1e5))
+            sat = lp == -float(np.finfo(fdt).max)  # an infinity clipped to the most negative float claims to be finite
+            rec.count("logprob_exactly_most_negative_float", int(sat.sum()))
+            fin = np.isfinite(lp) & ((np.abs(lp) <= (1e8 if x64 else 1e5)) | sat)
             rec.count("support_logprob_finite", int(fin.sum()))
             rec.count("support_logprob_minus_inf", int(np.isneginf(lp).sum()))
             rec.count("support_gradient_checks", 2 * int(fin.sum()))
